@@ -258,9 +258,9 @@ static unsigned int ares_qcache_calc_minttl(ares_dns_record_t *dnsrec)
       ares_dns_rec_type_t type = ares_dns_rr_get_type(rr);
       unsigned int        ttl  = ares_dns_rr_get_ttl(rr);
 
-      /* TTL is meaningless on these record types */
-      if (type == ARES_REC_TYPE_OPT || type == ARES_REC_TYPE_SOA ||
-          type == ARES_REC_TYPE_SIG) {
+      /* TTL is meaningless on these record types (an SOA record does carry a
+       * real TTL and must bound the cache lifetime like any other record) */
+      if (type == ARES_REC_TYPE_OPT || type == ARES_REC_TYPE_SIG) {
         continue;
       }
 
